@@ -25,7 +25,6 @@ from webob.descriptors import (
     parse_auth,
     parse_content_range,
     parse_etag_response,
-    parse_int,
     parse_int_safe,
     serialize_auth,
     serialize_content_range,
@@ -770,7 +769,7 @@ class Response:
     vary = list_header("Vary", "14.44")
 
     content_length = converter(
-        header_getter("Content-Length", "14.17"), parse_int, serialize_int, "int"
+        header_getter("Content-Length", "14.17"), parse_int_safe, serialize_int, "int"
     )
 
     content_encoding = header_getter("Content-Encoding", "14.11")
